@@ -304,7 +304,7 @@ def known_call_regions(c, dkey, fn, arg_consts):
     return out
 
 
-def run_one(c, facts, dkey, is_call, what, timeout, prop, clauses, extra_pre=None, spec_override=None):
+def run_one(c, facts, dkey, is_call, what, timeout, prop, clauses, extra_pre=None, spec_override=None, call_template=None):
     E, U, PV = c["E"], c["U"], c["PV"]
     cls, dialect = Q.VISITORS[dkey]
     Q.install_visit_contract(c, dkey)
@@ -397,6 +397,8 @@ def run_one(c, facts, dkey, is_call, what, timeout, prop, clauses, extra_pre=Non
                     cnt = [occurrences(a) for a in arg_terms]
                     other = [h for h in used if h.kind == "expr" and not any(z3.simplify(h.payload).eq(a) for a in arg_terms)]
                     ok = all(x == 1 for x in cnt) and not other
+                    if ok and call_template is not None:
+                        return call_template(fn, tree, used, arg_terms, path)
                     return ok, "" if ok else f"argument translations occur {cnt} times (each must occur exactly once)"
                 spec = call_spec
             else:
